@@ -789,31 +789,27 @@ impl<'a> Parser<'a> {
             return Ok(vec![]);
         }
 
-        let mut options = vec![];
-        loop {
-            if self.parse_keyword(Keyword::READ_ONLY) {
-                let boolean = if self.parse_keyword(Keyword::TRUE) {
+        let options = self.parse_comma_separated(|parser| {
+            if parser.parse_keyword(Keyword::READ_ONLY) {
+                let boolean = if parser.parse_keyword(Keyword::TRUE) {
                     Some(true)
-                } else if self.parse_keyword(Keyword::FALSE) {
+                } else if parser.parse_keyword(Keyword::FALSE) {
                     Some(false)
                 } else {
                     None
                 };
-                options.push(AttachDuckDBDatabaseOption::ReadOnly(boolean));
-            } else if self.parse_keyword(Keyword::TYPE) {
-                let ident = self.parse_identifier(false)?;
-                options.push(AttachDuckDBDatabaseOption::Type(ident));
+                Ok(AttachDuckDBDatabaseOption::ReadOnly(boolean))
+            } else if parser.parse_keyword(Keyword::TYPE) {
+                let ident = parser.parse_identifier(false)?;
+                Ok(AttachDuckDBDatabaseOption::Type(ident))
             } else {
-                return self.expected("expected one of: ), READ_ONLY, TYPE", self.peek_token());
-            };
-
-            if self.consume_token(&Token::RParen) {
-                return Ok(options);
-            } else if self.consume_token(&Token::Comma) {
-                continue;
-            } else {
-                return self.expected("expected one of: ')', ','", self.peek_token());
+                parser.expected("expected one of: ), READ_ONLY, TYPE", parser.peek_token())
             }
+        })?;
+        if self.consume_token(&Token::RParen) {
+            Ok(options)
+        } else {
+            self.expected("expected one of: ')', ','", self.peek_token())
         }
     }
 
@@ -8228,20 +8224,14 @@ impl<'a> Parser<'a> {
 
     pub fn parse_string_values(&mut self) -> Result<Vec<String>, ParserError> {
         self.expect_token(&Token::LParen)?;
-        let mut values = Vec::new();
-        loop {
-            let next_token = self.next_token();
+        let values = self.parse_comma_separated(|parser| {
+            let next_token = parser.next_token();
             match next_token.token {
-                Token::SingleQuotedString(value) => values.push(value),
-                _ => self.expected("a string", next_token)?,
+                Token::SingleQuotedString(value) => Ok(value),
+                _ => parser.expected("a string", next_token),
             }
-            let next_token = self.next_token();
-            match next_token.token {
-                Token::Comma => (),
-                Token::RParen => break,
-                _ => self.expected(", or }", next_token)?,
-            }
-        }
+        })?;
+        self.expect_token(&Token::RParen)?;
         Ok(values)
     }
 
@@ -11974,11 +11964,7 @@ impl<'a> Parser<'a> {
 
         let mut using = vec![];
         if self.parse_keyword(Keyword::USING) {
-            using.push(self.parse_expr()?);
-
-            while self.consume_token(&Token::Comma) {
-                using.push(self.parse_expr()?);
-            }
+            using = self.parse_comma_separated(Parser::parse_expr)?;
         };
 
         Ok(Statement::Execute {
